@@ -153,6 +153,124 @@ def _plain_local_assignments(tree: ast.AST) -> None:
     _T().visit(tree)
 
 
+def _specialise_constant_dispatch(tree: ast.Module, modname: str, known: Optional[set]) -> None:
+    """A private helper introduced after the rules were written that DISPATCHES on a string parameter -
+    `getattr(client, request)(...)`, `TABLE[request]` - and is only ever called with string literals for it
+    (`self._lookup("get_object", key, ...)`) is replaced by one copy per literal, with the parameter substituted
+    (`client.get_object(...)`, the table's entry), and every call is redirected to its copy.  What the rules then see is
+    the code a maintainer would have written by hand for each request; nothing is decided here."""
+    import copy
+    if known is None:
+        return
+    tables: Dict[str, ast.Dict] = {}
+    for st in tree.body:
+        if isinstance(st, ast.Assign) and len(st.targets) == 1 and isinstance(st.targets[0], ast.Name) and isinstance(st.value, ast.Dict) \
+                and st.value.keys and all(isinstance(k, ast.Constant) and isinstance(k.value, str) for k in st.value.keys) \
+                and all(isinstance(v, ast.Constant) for v in st.value.values):
+            tables[st.targets[0].id] = st.value
+    owners: List[Tuple[List[ast.stmt], Optional[str]]] = [(tree.body, None)]
+    owners += [(c.body, c.name) for c in tree.body if isinstance(c, ast.ClassDef)]
+    all_defs = [x.name for x in ast.walk(tree) if isinstance(x, (ast.FunctionDef, ast.AsyncFunctionDef))]
+    for body, cname in owners:
+        for f in list(body):
+            if not isinstance(f, ast.FunctionDef) or not f.name.startswith("_") or f.name.startswith("__") or f.decorator_list:
+                continue
+            q = f"{modname}.{cname}.{f.name}" if cname else f"{modname}.{f.name}"
+            if q in known or all_defs.count(f.name) != 1 or f.args.vararg or f.args.kwarg or f.args.posonlyargs or f.args.kwonlyargs:
+                continue
+            params = [a.arg for a in f.args.args]
+            if cname:
+                if not params or params[0] != "self":
+                    continue
+                params = params[1:]
+            # the dispatch parameter: used as getattr(x, p) / TABLE[p] and never re-bound
+            disp = None
+            for pn in params:
+                uses = [x for x in ast.walk(f) if (isinstance(x, ast.Call) and isinstance(x.func, ast.Name) and x.func.id == "getattr"
+                                                   and len(x.args) == 2 and isinstance(x.args[1], ast.Name) and x.args[1].id == pn)
+                        or (isinstance(x, ast.Subscript) and isinstance(x.value, ast.Name) and x.value.id in tables
+                            and isinstance(x.slice, ast.Name) and x.slice.id == pn)]
+                rebound = any((isinstance(x, ast.Name) and x.id == pn and not isinstance(x.ctx, ast.Load))
+                              or (isinstance(x, ast.arg) and x.arg == pn and x not in f.args.args) for x in ast.walk(f))
+                if uses and not rebound:
+                    disp = pn
+                    break
+            if disp is None:
+                continue
+            idx = params.index(disp)
+            refs = [x for x in ast.walk(tree) if (isinstance(x, ast.Attribute) and x.attr == f.name) or (isinstance(x, ast.Name) and x.id == f.name)]
+            calls = [x for x in ast.walk(tree) if isinstance(x, ast.Call) and any(x.func is r for r in refs)]
+            if not calls or len(calls) != len(refs):
+                continue  # also handed on as a value: leave it alone
+            values: List[Tuple[ast.Call, str]] = []
+            for c in calls:
+                if any(isinstance(a, ast.Starred) for a in c.args) or any(k.arg is None for k in c.keywords):
+                    values = []
+                    break
+                arg = c.args[idx] if idx < len(c.args) else next((k.value for k in c.keywords if k.arg == disp), None)
+                if not (isinstance(arg, ast.Constant) and isinstance(arg.value, str) and arg.value.isidentifier()):
+                    values = []
+                    break
+                values.append((c, arg.value))
+            distinct = sorted({v for _c, v in values})
+            if not values or len(distinct) > 6 or any(isinstance(x, ast.Subscript) and isinstance(x.value, ast.Name) and x.value.id in tables
+                                                      and isinstance(x.slice, ast.Name) and x.slice.id == disp
+                                                      and not all(v in [k.value for k in tables[x.value.id].keys] for v in distinct)  # type: ignore[union-attr]
+                                                      for x in ast.walk(f)):
+                continue
+
+            class _S(ast.NodeTransformer):
+                def __init__(self, value: str) -> None:
+                    self.value = value
+
+                def visit_Name(self, node):  # type: ignore[no-untyped-def]
+                    if node.id == disp and isinstance(node.ctx, ast.Load):
+                        return ast.copy_location(ast.Constant(value=self.value), node)
+                    return node
+
+                def visit_Call(self, node):  # type: ignore[no-untyped-def]
+                    self.generic_visit(node)
+                    if isinstance(node.func, ast.Name) and node.func.id == "getattr" and len(node.args) == 2 and not node.keywords \
+                            and isinstance(node.args[1], ast.Constant) and node.args[1].value == self.value:
+                        return ast.copy_location(ast.Attribute(value=node.args[0], attr=self.value, ctx=ast.Load()), node)
+                    return node
+
+                def visit_Subscript(self, node):  # type: ignore[no-untyped-def]
+                    self.generic_visit(node)
+                    if isinstance(node.value, ast.Name) and node.value.id in tables and isinstance(node.slice, ast.Constant) \
+                            and node.slice.value == self.value and isinstance(node.ctx, ast.Load):
+                        t = tables[node.value.id]
+                        for k, v in zip(t.keys, t.values):
+                            if isinstance(k, ast.Constant) and k.value == self.value:
+                                return ast.copy_location(copy.deepcopy(v), node)
+                    return node
+
+            clones = []
+            for v in distinct:
+                cl = copy.deepcopy(f)
+                cl.name = f"{f.name}__{v}"
+                pos = idx + (1 if cname else 0)
+                nargs = len(cl.args.args)
+                del cl.args.args[pos]
+                dpos = pos - (nargs - len(cl.args.defaults))
+                if 0 <= dpos < len(cl.args.defaults):
+                    del cl.args.defaults[dpos]
+                cl.body = [_S(v).visit(st) for st in cl.body]
+                ast.fix_missing_locations(cl)
+                clones.append(cl)
+            at = body.index(f)
+            body[at:at + 1] = clones
+            for c, v in values:
+                if isinstance(c.func, ast.Attribute):
+                    c.func.attr = f"{f.name}__{v}"
+                elif isinstance(c.func, ast.Name):
+                    c.func.id = f"{f.name}__{v}"
+                if idx < len(c.args):
+                    del c.args[idx]
+                else:
+                    c.keywords = [k for k in c.keywords if k.arg != disp]
+
+
 @dataclass
 class T:
     """A (very) small type: class qualified name + type arguments."""
@@ -368,6 +486,7 @@ class Program:
                 raise AnalysisError(f"cannot parse {path}: {e}") from e
             _plain_local_assignments(tree)
             modname = f"{PKG}.{fn[:-3]}" if fn != "__init__.py" else PKG
+            _specialise_constant_dispatch(tree, modname, self.known)
             m = Module(modname, path, os.path.relpath(path, self.repo_root), src, tree)
             self.modules[modname] = m
             self._index_module(m)
